@@ -21,7 +21,7 @@ the converters are total on the raw domain of the field. -/
 def convTotal (env : Env) (f : Field) : Bool :=
   let numeric := f.dtype = .int ∨ f.dtype = .bool ∨ f.dtype = .float
   let tblOk (n : String) : Bool :=
-    f.width ≤ 12 && numeric && f.dtype != .bool &&
+    decide (0 < f.width) && f.width ≤ 12 && numeric && f.dtype != .bool &&
     match env.convTables.lookup n with
     | some tbl => tableCovers tbl f.width f.signed
     | none => false
@@ -33,22 +33,252 @@ def convTotal (env : Env) (f : Field) : Bool :=
   | .none, .table n => tblOk n
   | _, _ => false
 
+/-! ## helper lemmas for `decodeField_total` -/
+
+/-- two's complement range of a slice of at most `w` bits (`w > 0`) -/
+theorem toInt_range (bs : Bits) (w : Nat) (h : bs.length ≤ w) (hw : 0 < w) :
+    -(2:Int)^(w-1) ≤ toInt bs ∧ toInt bs < 2^(w-1) := by
+  have hQ : (0:Int) < 2^(w-1) := Int.pow_pos (by decide)
+  cases bs with
+  | nil => simp only [toInt]; omega
+  | cons b tl =>
+    have hlen : tl.length ≤ w - 1 := by simp at h; omega
+    have hlt := toNat_lt tl
+    have hPQ : 2^tl.length ≤ 2^(w-1) := Nat.pow_le_pow_right (by decide) hlen
+    have hPQ' : (2:Int)^tl.length ≤ 2^(w-1) := by exact_mod_cast hPQ
+    have hlt' : ((toNat tl : Nat) : Int) < (2:Int)^tl.length := by exact_mod_cast hlt
+    cases b
+    · simp only [toInt, toNat, b2n]
+      simp
+      omega
+    · simp only [toInt, toNat, b2n, List.length_cons, Int.pow_succ]
+      simp only [if_true, Nat.one_mul, Int.natCast_add, Int.natCast_pow, Int.cast_ofNat_Int]
+      omega
+
+/-- the raw integer read from a slice -/
+def rawOf (f : Field) (bits : Bits) : Int := if f.signed then toInt bits else (toNat bits : Int)
+
+theorem decodeRaw_numeric (f : Field) (bits : Bits) :
+    decodeRaw f bits = match f.dtype with
+      | .int => .int (rawOf f bits)
+      | .bool => .bool (rawOf f bits != 0)
+      | .float => .flt (rawOf f bits * MICRO)
+      | .str => .str (decodeAscii6 bits)
+      | .bytes => .bytes (toBytes bits) := by
+  unfold decodeRaw rawOf
+  cases hd : f.dtype <;> simp [fromBytes_shift, fromBytesSigned_shift]
+
+theorem decodeRaw_micro (f : Field) (bits : Bits)
+    (hnum : f.dtype = .int ∨ f.dtype = .bool ∨ f.dtype = .float) :
+    ∃ m, (decodeRaw f bits).micro = some (m * MICRO) := by
+  rw [decodeRaw_numeric]
+  rcases hnum with hd | hd | hd <;> rw [hd]
+  · exact ⟨_, rfl⟩
+  · refine ⟨if (rawOf f bits != 0) then 1 else 0, ?_⟩
+    simp only [Val.micro]
+    cases (rawOf f bits != 0) <;> simp
+  · exact ⟨_, rfl⟩
+
+theorem decodeRaw_key (f : Field) (bits : Bits)
+    (hnum : f.dtype = .int ∨ f.dtype = .float) :
+    (decodeRaw f bits).key = some (rawOf f bits) := by
+  rw [decodeRaw_numeric]
+  rcases hnum with hd | hd <;> rw [hd]
+  · rfl
+  · simp only [Val.key]
+    have h0 : MICRO ≠ 0 := by decide
+    rw [if_pos (Int.mul_emod_left _ _), Int.mul_ediv_cancel _ h0]
+
+theorem tableCovers_lookup (tbl : List (Int × Val)) (f : Field)
+    (h : tableCovers tbl f.width f.signed = true) (hw : 0 < f.width) (bits : Bits)
+    (hlen : bits.length ≤ f.width) : ∃ r, tbl.lookup (rawOf f bits) = some r := by
+  unfold tableCovers at h
+  unfold rawOf
+  cases hs : f.signed
+  · simp only [hs, Bool.false_eq_true, if_false] at h ⊢
+    have hlt : toNat bits < 2 ^ f.width :=
+      Nat.lt_of_lt_of_le (toNat_lt bits) (Nat.pow_le_pow_right (by decide) hlen)
+    have := List.all_eq_true.mp h _ (List.mem_range.mpr hlt)
+    exact Option.isSome_iff_exists.mp this
+  · simp only [hs, if_true] at h ⊢
+    obtain ⟨hlo, hhi⟩ := toInt_range bits f.width hlen hw
+    have hpow : (2:Int) ^ f.width = 2 ^ (f.width - 1) * 2 := by
+      rw [← Int.pow_succ]; congr 1; omega
+    have hi : (toInt bits + 2 ^ (f.width - 1)).toNat < 2 ^ f.width := by
+      have : ((toInt bits + 2 ^ (f.width - 1)).toNat : Int) < ((2 ^ f.width : Nat) : Int) := by
+        rw [Int.toNat_of_nonneg (by omega)]
+        simp only [Int.natCast_pow, Int.cast_ofNat_Int]
+        omega
+      exact_mod_cast this
+    have := List.all_eq_true.mp h _ (List.mem_range.mpr hi)
+    rw [Int.toNat_of_nonneg (by omega)] at this
+    have e : toInt bits + 2 ^ (f.width - 1) - 2 ^ (f.width - 1) = toInt bits := by omega
+    rw [e] at this
+    exact Option.isSome_iff_exists.mp this
+
+theorem decodeField_of_attr_none (env : Env) (f : Field) (bits : Bits) (ha : f.attrConv = .none) :
+    decodeField env f bits = applyConv env f.toConv (decodeRaw f bits) := by
+  unfold decodeField
+  rw [ha]
+  cases applyConv env f.toConv (decodeRaw f bits) <;> rfl
+
+theorem decodeField_of_to_none (env : Env) (f : Field) (bits : Bits) (ht : f.toConv = .none) :
+    decodeField env f bits = applyConv env f.attrConv (decodeRaw f bits) := by
+  unfold decodeField
+  rw [ht]
+  rfl
+
+theorem applyConv_table_total (env : Env) (f : Field) (n : String) (bits : Bits)
+    (hlen : bits.length ≤ f.width)
+    (h : (decide (0 < f.width) && decide (f.width ≤ 12) &&
+        decide (f.dtype = .int ∨ f.dtype = .bool ∨ f.dtype = .float) && (f.dtype != .bool) &&
+        match env.convTables.lookup n with
+        | some tbl => tableCovers tbl f.width f.signed
+        | none => false) = true) :
+    ∃ v, applyConv env (.table n) (decodeRaw f bits) = .ok v := by
+  simp only [Bool.and_eq_true, decide_eq_true_eq, bne_iff_ne, ne_eq] at h
+  obtain ⟨⟨⟨⟨hw, _⟩, hnum⟩, hnb⟩, htbl⟩ := h
+  have hnum' : f.dtype = .int ∨ f.dtype = .float := by
+    rcases hnum with h | h | h
+    · exact .inl h
+    · exact absurd h hnb
+    · exact .inr h
+  split at htbl
+  · rename_i tbl hl
+    obtain ⟨r, hr⟩ := tableCovers_lookup tbl f htbl hw bits hlen
+    refine ⟨r, ?_⟩
+    simp only [applyConv, hl, decodeRaw_key f bits hnum', hr]
+  · cases htbl
+
 /-- a field whose converters are total decodes every slice of at most its width -/
 theorem decodeField_total (env : Env) (f : Field) (h : convTotal env f = true) (bits : Bits)
     (hlen : bits.length ≤ f.width) : ∃ v, decodeField env f bits = .ok v := by
-  sorry
+  simp only [convTotal] at h
+  split at h
+  · rename_i ht ha
+    rw [decodeField_of_attr_none _ _ _ ha, ht]
+    exact ⟨_, rfl⟩
+  · rename_i k ht ha
+    rw [decodeField_of_attr_none _ _ _ ha, ht]
+    simp only [Bool.and_eq_true, decide_eq_true_eq] at h
+    obtain ⟨⟨hk, hdiv⟩, hnum⟩ := h
+    obtain ⟨m, hm⟩ := decodeRaw_micro f bits hnum
+    have hkd : ((k : Nat) : Int) ∣ m * MICRO :=
+      Int.dvd_trans (Int.natCast_dvd_natCast.mpr (Nat.dvd_of_mod_eq_zero hdiv)) (Int.dvd_mul_left _ _)
+    have hk0 : k ≠ 0 := by omega
+    simp only [applyConv, hm, hk0, if_false, Int.emod_eq_zero_of_dvd hkd, if_true]
+    exact ⟨_, rfl⟩
+  · rename_i k p ht ha
+    rw [decodeField_of_attr_none _ _ _ ha, ht]
+    simp only [Bool.and_eq_true, decide_eq_true_eq] at h
+    obtain ⟨⟨hk, hp⟩, hnum⟩ := h
+    obtain ⟨m, hm⟩ := decodeRaw_micro f bits hnum
+    have hc : ¬ (k = 0 ∨ p > 6) := by omega
+    simp only [applyConv, hm, hc, if_false]
+    exact ⟨_, rfl⟩
+  · rename_i n ht ha
+    rw [decodeField_of_attr_none _ _ _ ha, ht]
+    exact applyConv_table_total env f n bits hlen h
+  · rename_i n ht ha
+    rw [decodeField_of_to_none _ _ _ ht, ha]
+    exact applyConv_table_total env f n bits hlen h
+  · cases h
+
+/-! ## helper lemmas about `sequenceE` / `offFields` -/
+
+theorem fieldSlice_length_le (bits : Bits) (off w : Nat) : (fieldSlice bits off w).length ≤ w := by
+  unfold fieldSlice
+  simp only [List.length_take, List.length_drop]
+  omega
+
+theorem sequenceE_total (l : List (String × Except Err Val))
+    (h : ∀ p ∈ l, ∃ v, p.2 = .ok v) : ∃ kv, sequenceE l = .ok kv := by
+  induction l with
+  | nil => exact ⟨[], rfl⟩
+  | cons p rest ih =>
+    obtain ⟨n, r⟩ := p
+    obtain ⟨v, hv⟩ := h (n, r) List.mem_cons_self
+    obtain ⟨kv, hkv⟩ := ih (fun p hp => h p (List.mem_cons_of_mem _ hp))
+    simp only at hv
+    subst hv
+    exact ⟨(n, v) :: kv, by simp [sequenceE, hkv]⟩
+
+/-- a successful `sequenceE` means every entry was `.ok`, and the result lists exactly these values -/
+theorem sequenceE_ok (l : List (String × Except Err Val)) (kv : List (String × Val))
+    (h : sequenceE l = .ok kv) : l = kv.map (fun p => (p.1, Except.ok p.2)) := by
+  induction l generalizing kv with
+  | nil =>
+    simp only [sequenceE, Except.ok.injEq] at h
+    subst h; rfl
+  | cons p rest ih =>
+    obtain ⟨n, r⟩ := p
+    cases r with
+    | error e => simp [sequenceE] at h
+    | ok v =>
+      simp only [sequenceE] at h
+      cases hr : sequenceE rest with
+      | error e => rw [hr] at h; simp at h
+      | ok vs =>
+        rw [hr] at h
+        simp only [Except.ok.injEq] at h
+        subst h
+        rw [List.map_cons, ← ih vs hr]
+
+theorem offFields_ok (env : Env) (fs : List Field) (h : fs.all (convTotal env) = true)
+    (bits : Bits) (off : Nat) : ∀ p ∈ offFields env bits off fs, ∃ v, p.2 = .ok v := by
+  induction fs generalizing off with
+  | nil => intro p hp; simp [offFields] at hp
+  | cons f fs ih =>
+    simp only [List.all_cons, Bool.and_eq_true] at h
+    intro p hp
+    simp only [offFields, List.mem_cons] at hp
+    rcases hp with rfl | hp
+    · simp only
+      split
+      · exact ⟨_, rfl⟩
+      · exact decodeField_total env f h.1 _ (fieldSlice_length_le _ _ _)
+    · exact ih h.2 _ p hp
+
+theorem offFields_names (env : Env) (fs : List Field) (bits : Bits) (off : Nat) :
+    (offFields env bits off fs).map (·.1) = fs.map (·.name) := by
+  induction fs generalizing off with
+  | nil => rfl
+  | cons f fs ih => simp [offFields, ih]
+
+/-- entry `i` of a successful decode: the name of field `i` and the value decoded at its offset -/
+theorem seqDecode_getElem (env : Env) (fs : List Field) (bits : Bits)
+    (kv : List (String × Val)) (h : seqDecode env bits 0 fs = .ok kv)
+    (i : Nat) (f : Field) (o : Nat) (hi : (offsetsFrom 0 fs)[i]? = some (f, o)) :
+    ∃ v, kv[i]? = some (f.name, v) ∧
+      (if o ≥ bits.length then .ok .none else decodeField env f (fieldSlice bits o f.width))
+        = Except.ok v := by
+  rw [seqDecode_eq_off, offFields_eq_map] at h
+  have h1 := congrArg (fun l => l[i]?) (sequenceE_ok _ _ h)
+  simp only [List.getElem?_map, hi, Option.map_some] at h1
+  cases hk : kv[i]? with
+  | none => rw [hk] at h1; simp at h1
+  | some p =>
+    rw [hk] at h1
+    simp only [Option.map_some, Option.some.injEq, Prod.mk.injEq] at h1
+    obtain ⟨n, v⟩ := p
+    exact ⟨v, by rw [h1.1], h1.2⟩
 
 /-- **C11 (totality).** A table whose converters are total never fails, for every bit string of
 every length (including the empty one) and every cursor. -/
 theorem seqDecode_total (env : Env) (fs : List Field) (h : fs.all (convTotal env) = true)
     (bits : Bits) (cur : Nat) : ∃ kv, seqDecode env bits cur fs = .ok kv := by
-  sorry
+  rw [seqDecode_eq_off]
+  exact sequenceE_total _ (offFields_ok env fs h bits cur)
 
 /-- the result list of a successful decode has one entry per field, in table order -/
 theorem seqDecode_names (env : Env) (fs : List Field) (bits : Bits) (cur : Nat)
     (kv : List (String × Val)) (h : seqDecode env bits cur fs = .ok kv) :
     kv.map (·.1) = fs.map (·.name) := by
-  sorry
+  rw [seqDecode_eq_off] at h
+  have h1 := congrArg (List.map (·.1)) (sequenceE_ok _ _ h)
+  rw [offFields_names] at h1
+  rw [h1, List.map_map]
+  rfl
 
 /-- **C11 (covered fields).** If the first `L` bits and the whole payload both decode, every field
 that lies completely inside the first `L` bits has the same value in both results. -/
@@ -59,7 +289,13 @@ theorem seqDecode_covered (env : Env) (fs : List Field) (bits : Bits) (L : Nat) 
     (i : Nat) (f : Field) (o : Nat) (hi : (offsetsFrom 0 fs)[i]? = some (f, o))
     (hw : 0 < f.width) (hcov : o + f.width ≤ L) :
     kvPre[i]? = kvFull[i]? := by
-  sorry
+  obtain ⟨v1, h1, e1⟩ := seqDecode_getElem env fs bits kvFull hfull i f o hi
+  obtain ⟨v2, h2, e2⟩ := seqDecode_getElem env fs (bits.take L) kvPre hpre i f o hi
+  have hlen : (bits.take L).length = L := by simp only [List.length_take]; omega
+  rw [if_neg (by omega)] at e1
+  rw [hlen, if_neg (by omega), fieldSlice_take bits L o f.width hL hcov, e1] at e2
+  cases e2
+  rw [h1, h2]
 
 /-- **C11 (absent fields).** Every field that starts at or beyond the end of the received bits is
 `None`. -/
@@ -68,12 +304,18 @@ theorem seqDecode_absent (env : Env) (fs : List Field) (bits : Bits)
     (i : Nat) (f : Field) (o : Nat) (hi : (offsetsFrom 0 fs)[i]? = some (f, o))
     (habs : bits.length ≤ o) :
     kv[i]? = some (f.name, .none) := by
-  sorry
+  obtain ⟨v, h1, e1⟩ := seqDecode_getElem env fs bits kv h i f o hi
+  rw [if_pos habs] at e1
+  cases e1
+  exact h1
 
 /-- `get_int` on a range that lies inside the payload does not see what follows it -/
 theorem getInt_take (bits : Bits) (L lo hi : Nat) (hhi : hi ≤ L) :
     getInt (bits.take L) lo hi = getInt bits lo hi := by
-  sorry
+  unfold getInt
+  rw [List.drop_take, List.take_take]
+  congr 3
+  omega
 
 /-- **C11 (variant).** The variant chosen for a prefix that contains all discriminator bits read by
 the dispatch tree is the variant chosen for the whole payload. -/
@@ -89,6 +331,24 @@ def Tree.maxBit : Tree → Nat
 
 theorem treeRun_take (tr : Tree) (bits : Bits) (L : Nat) (h : tr.maxBit ≤ L) :
     tr.run (fun t => .ok (t.evalBits (bits.take L))) = tr.run (fun t => .ok (t.evalBits bits)) := by
-  sorry
+  induction tr with
+  | leaf c => rfl
+  | raise e => rfl
+  | ite t a b iha ihb =>
+    have ha : a.maxBit ≤ L := by simp only [Tree.maxBit] at h; omega
+    have hb : b.maxBit ≤ L := by simp only [Tree.maxBit] at h; omega
+    have ht : t.evalBits (bits.take L) = t.evalBits bits := by
+      cases t with
+      | bits lo hi =>
+        simp only [Tree.maxBit] at h
+        simp only [Test.evalBits]
+        rw [getInt_take _ _ _ _ (by omega)]
+      | bitsEq lo hi c =>
+        simp only [Tree.maxBit] at h
+        simp only [Test.evalBits]
+        rw [getInt_take _ _ _ _ (by omega)]
+      | kw k => rfl
+      | kwIntEq k d c => rfl
+    simp only [Tree.run, ht, iha ha, ihb hb]
 
 end Model
